@@ -5,13 +5,15 @@ Parts
                        description + an independent copy of the documented name table
   as_code          (b) exec(pq.as_code(...)) reproduces instructions / simulator / config
   as_code_exec     (b) ... and the same result under the same seed
-  as_code_regions  (b) regions of as_code with confirmed defects (kept out of `as_code` by
-                       construction so that the search continues behind them)
+  as_code_regions  (b) enumerated regression probes of the four as_code defects repaired in
+                       /repo commit 195aeff (array precision / dtype name / summarisation,
+                       string parameters); the same regions are also drawn in `as_code`
   from_dict        (c)
   copy             (d)
   nesting          (e) oracle = composition of the register maps computed here
   prep             (f) oracle = exact rational amplitude dictionaries
-  prep_f11         (f) trigger region of finding F11 (NumberState + weighted FockStateVector)
+  prep_f11         (f) enumerated regression probe of finding F11 (NumberState + weighted
+                       FockStateVector, repaired in /repo commit d862810); also drawn in `prep`
 
 Every case is a JSON description; objects (also matrices) are rebuilt from it.
 """
@@ -48,20 +50,24 @@ RULE = (
     "floats incl. subnormals, -0.0, 1e+-300, max double, integer-valued), Python int (up to "
     "2**70), np.float64 or np.float32; defaults omitted or given; 5% with a non-exportable "
     "instruction (must raise PiquassoException). as_code / from_dict / copy: programs of "
-    "0..6 instructions over 44 instruction classes (scalar, complex, tuple, dict, list and "
-    "array parameters; arrays up to 8x8 of float64/complex128/int64 whose entries have <= 7 "
-    "significant digits, incl. -0.0, 1e300, 5e-324), simulators G/PF/F/Sampling/Passive with "
-    "d given or None, Config with none / one / some / all ten fields non-default; "
-    "as_code_exec: executable programs (lib.progs gates + permutation interferometers + "
-    "photon counting) compared on samples and final state under the same seed. nesting: "
-    "inner program of 1..5 instructions registered through 1..3 levels of drawn injective "
-    "registers (or Q()), optionally twice per level. prep: expression trees of <= 5 leaves "
-    "over NumberState / FockStateVector with +, left/right scalar *, / (float, int, complex, "
-    "numpy scalars), compared with exact rational arithmetic, plus up to 6 re-associations / "
-    "commutations of the top-level sum. Non-trivial = round-trip programs with >= 3 "
-    "instructions, >= 1 non-default float and >= 1 multi-mode gate; nesting depth >= 2 with a "
-    "non-idempotent register; trees with >= 3 leaves mixing both leaf kinds. Distinct by the "
-    "whole case description."
+    "0..6 instructions over 44 instruction classes (scalar, complex, tuple, dict, list, "
+    "expression-string and array parameters; arrays up to 8x8 of float64/complex128/int64/"
+    "float32/complex64 with short-decimal, integer or full-precision entries incl. -0.0, "
+    "1e300, 5e-324, Haar unitaries; in as_code 5% of the cases carry an array of > 1000 "
+    "elements and 2.5% a 1-D empty or 0-d array), simulators G/PF/F/Sampling/Passive with d "
+    "given or None, Config with none / one / some / all ten fields non-default; "
+    "as_code_exec: executable programs (lib.progs gates, Haar / real / diagonal / permutation "
+    "interferometers, constant expression-string parameters, photon counting) compared on "
+    "samples and every branch state under the same seed. nesting: inner program of 1..5 "
+    "instructions registered through 1..3 levels of drawn injective registers (or Q()), "
+    "optionally twice per level. prep: expression trees of <= 5 leaves over NumberState / "
+    "FockStateVector with +, left/right scalar *, / (float, int, complex, numpy scalars), "
+    "evaluated exactly as written and compared with exact rational arithmetic, plus up to 6 "
+    "re-associations / commutations of the top-level sum. as_code_regions / prep_f11: "
+    "enumerated regression probes of the five repaired defects. Non-trivial = round-trip "
+    "programs with >= 3 instructions, >= 1 non-default float and >= 1 multi-mode gate; "
+    "nesting depth >= 2 with a non-idempotent register; trees with >= 3 leaves mixing both "
+    "leaf kinds. Distinct by the whole case description."
 )
 ASSUMPTIONS = [
     "the blackbird package parses the text it is given correctly (its parser is used both by "
@@ -69,12 +75,12 @@ ASSUMPTIONS = [
     "Python's float repr / Fraction arithmetic are exact; json round-trips finite doubles",
     "parameter equality is value equality (2 == 2.0, np.float64(x) == x, tuple vs list of "
     "equal items); the sign of zero is compared for real scalars and real arrays",
-    "in `as_code` array entries are restricted to <= 7 significant digits, dtypes to float64/"
-    "complex128/int64, sizes to <= 1000 elements and parameters to non-strings; the "
-    "complement is checked in `as_code_regions`",
-    "in `prep` an addition whose left operand is a NumberState and whose right operand is a "
-    "FockStateVector with coefficient != 1 is evaluated in the commuted order (finding F11); "
-    "the literal order is checked in `prep_f11`",
+    "array parameters with a zero-length axis among two or more axes (e.g. shape (0, 2)) are "
+    "not generated: no instruction accepts such a matrix in an executable program (every "
+    "matrix shape derives from a number of modes >= 1 or a cutoff >= 1); as_code still emits "
+    "`shape=` for them (observation). 1-D empty and 0-d arrays are generated",
+    "string parameters are documented expression strings; in executed programs they are "
+    "constant expressions (no measurement outcome is referenced)",
     "operands of the preparation operators are fresh objects (the operators mutate in place)",
 ]
 FLOORS = {
@@ -82,16 +88,12 @@ FLOORS = {
     "nest_nonidempotent": 0.02,
     "prep_mixed_ge3": 0.02,
     "code_array_param": 0.02,
+    "code_full_precision_array": 0.01,
+    "code_f32_c64_array": 0.005,
+    "code_large_array": 0.002,
+    "code_str_param": 0.005,
+    "prep_number_plus_weighted_vector": 0.005,
 }
-if "--part" in __import__("sys").argv:  # floors are fractions of a full run
-    FLOORS = {}
-
-# Sensitivity runs (tools/mutants.py) set both: without the dedicated known-defect parts the
-# unchanged tree exits 0, so any exit 1 is the mutant; without Hypothesis' shrink phase (up
-# to 5 minutes per bucket) a run stays within the quick budget.
-SKIP_KNOWN_REGIONS = bool(os.environ.get("C18_SKIP_KNOWN_REGIONS"))
-NO_SHRINK = bool(os.environ.get("C18_NO_SHRINK"))
-
 F11_BUCKET = "C18:prep:NumberState+weighted-FockStateVector"
 
 # ======================================================================= value descriptions
@@ -315,7 +317,14 @@ def any_float():
     )
 
 
-def scalar_desc():
+STR_PARAMS = ["x[0]", "x[-1] * 0.5", "0.5", "x[0] + 1", "(x[0] == 1) * 0.25",
+              "0.25 + 0.5", "-1e-05", "x[0] ** 2 / 3"]
+
+
+def scalar_desc(strings=False):
+    if strings:
+        return st.one_of(*([scalar_desc()] * 11),
+                         st.sampled_from(STR_PARAMS).map(lambda t: {"k": "str", "v": t}))
     f32 = st.one_of(st.floats(allow_nan=False, allow_infinity=False, width=32),
                     st.sampled_from([0.1, 0.3, 1 / 3, 1e-10, 3.1415927, 16777216.0, -2.7e20]))
     return st.one_of(
@@ -592,27 +601,23 @@ ARRAY_GATES = [n for n, (_, ps) in CODE_CAT.items()
 
 
 @st.composite
-def arr_desc(draw, shape, region=None):
-    """region None: representable arrays (as_code main part); else one of the regions
-    'full' (full-precision entries), 'dtype' (float32/complex64), 'large' (> 1000)."""
+def arr_desc(draw, shape):
+    """Arrays of every kind as_code has to reproduce: short-decimal, integer-valued and
+    full-precision entries, float64 / complex128 / int64 / float32 / complex64."""
     v = {"k": "arr", "shape": list(shape), "seed": draw(st.integers(0, 2**32))}
-    if region == "dtype":
-        v["dtype"] = draw(st.sampled_from(["float32", "complex64"]))
-        v["style"] = "int"
-        return v
-    v["dtype"] = draw(st.sampled_from(["float64", "float64", "complex128", "complex128", "int64"]))
+    v["dtype"] = draw(st.sampled_from(["float64", "float64", "complex128", "complex128",
+                                        "int64", "float32", "complex64"]))
     if v["dtype"] == "int64":
         v["style"] = "int"
-    elif region == "full":
-        v["style"] = "full"
-    else:
-        v["style"] = draw(st.sampled_from(["short", "short", "short", "int"]))
-        if v["dtype"] == "float64" and draw(st.integers(0, 3)) == 0:
-            v["specials"] = draw(st.lists(
-                st.tuples(st.integers(0, 10**6),
-                          st.sampled_from([0.0, -0.0, 1e300, -1e-300, 5e-324, 1.0, 1e-5,
-                                           123456.5, 1e16])).map(list),
-                min_size=1, max_size=3))
+        return v
+    v["style"] = draw(st.sampled_from(["short", "full", "full", "int"]))
+    n = int(np.prod(shape)) if shape else 1
+    if v["dtype"] == "float64" and n and draw(st.integers(0, 3)) == 0:
+        v["specials"] = draw(st.lists(
+            st.tuples(st.integers(0, 10**6),
+                      st.sampled_from([0.0, -0.0, 1e300, -1e-300, 5e-324, 1.0, 1e-5,
+                                       123456.5, 1e16, 0.1, math.pi])).map(list),
+            min_size=1, max_size=3))
     return v
 
 
@@ -621,7 +626,7 @@ def sym_size(sym, k, c):
 
 
 @st.composite
-def code_inst(draw, d, names, region=None, big=None):
+def code_inst(draw, d, names, big=None):
     name = draw(st.sampled_from(names))
     arity, pspec = CODE_CAT[name]
     if arity == "all":
@@ -641,7 +646,7 @@ def code_inst(draw, d, names, region=None, big=None):
     p = {}
     for pname, kind in pspec:
         if kind == S:
-            p[pname] = draw(scalar_desc())
+            p[pname] = draw(scalar_desc(strings=True))
         elif kind == "c":
             if draw(st.integers(0, 3)) == 0:
                 continue  # default coefficient
@@ -668,25 +673,25 @@ def code_inst(draw, d, names, region=None, big=None):
                 p[pname] = draw(scalar_desc())
             else:
                 n = draw(st.integers(1, 4))
-                p[pname] = draw(arr_desc((n, n), region))
+                p[pname] = draw(arr_desc((n, n)))
         else:
             shape = tuple(sym_size(s_, k, c) for s_ in kind[1:])
             if big is not None:
                 shape = big if len(shape) == 2 else (big[0] * big[1],)
-            p[pname] = draw(arr_desc(shape, region))
+            p[pname] = draw(arr_desc(shape))
             if name == "GeneraldyneMeasurement":
                 # validated at construction (uncertainty relation)
                 p[pname] = {"k": "arr", "shape": list(shape), "seed": p[pname]["seed"],
-                            "style": "cov", "entries": "full" if region == "full" else "short",
-                            "dtype": "float32" if region == "dtype" else "float64"}
+                            "style": "cov", "entries": draw(st.sampled_from(["short", "full"])),
+                            "dtype": draw(st.sampled_from(["float64", "float64", "float32"]))}
             if name == "LossyInterferometer":
                 # the constructor validates the singular values: contraction by construction
+                dt = draw(st.sampled_from(["complex128", "complex128", "float64", "complex64"]))
                 p[pname] = {"k": "arr", "shape": list(shape), "seed": p[pname]["seed"],
-                            "style": "unitary", "kind": "haar" if region == "full" else "perm",
-                            "scale": draw(st.sampled_from([1.0, 0.5, 0.25])),
-                            "dtype": "complex64" if region == "dtype" else
-                            draw(st.sampled_from(["complex128", "float64"]))
-                            if region is None else "complex128"}
+                            "style": "unitary", "kind": draw(st.sampled_from(["haar", "perm"])),
+                            "scale": draw(st.sampled_from([0.5, 0.25] if dt == "complex64"
+                                                          else [1.0, 0.5, 0.25])),
+                            "dtype": dt}
     return {"g": name, "modes": modes_out, "p": p}
 
 
@@ -820,6 +825,22 @@ def code_case(draw):
     names = sorted(CODE_CAT)
     pool = draw(st.sampled_from([names, names, ARRAY_GATES, sorted(BB)]))
     insts = [draw(code_inst(d, pool)) for _ in range(n)]
+    rare = draw(st.integers(0, 39))
+    if rare <= 1:  # above NumPy's summarisation threshold (1000 elements); kept rare for speed
+        big = draw(st.sampled_from([[32, 32], [26, 40], [1, 1001], [34, 34]]))
+        inst = draw(code_inst(d, ["Mean", "Covariance", "SNAP", "Interferometer"], big))
+        for v in inst["p"].values():
+            if v["k"] == "arr" and v["dtype"] == "int64":
+                v["dtype"], v["style"] = "float64", "full"
+        insts.insert(draw(st.integers(0, len(insts))), inst)
+    elif rare == 2:  # 1-D empty and 0-d arrays
+        shape = draw(st.sampled_from([[0], []]))
+        a = draw(arr_desc(shape))
+        a.pop("specials", None)
+        insts.append({"g": draw(st.sampled_from(["Mean", "SNAP"])), "modes": None, "p": {}})
+        insts[-1]["p"] = {"mean" if insts[-1]["g"] == "Mean" else "theta": a}
+        if insts[-1]["g"] == "SNAP":
+            insts[-1]["modes"] = [0]
     sim = {"kind": draw(st.sampled_from(sorted(SIMS))),
            "d": draw(st.sampled_from([None, d, d, d + 2])),
            "config": draw(st.one_of(st.none(), config_desc()))}
@@ -875,6 +896,18 @@ def prop_as_code(case, ctx):
     na = array_count(descs)
     if na:
         classes.append("code_array_param")
+    arrs = [v for d in descs for v in d["p"].values() if v["k"] == "arr"]
+    if any(v.get("style") == "full" or v.get("entries") == "full"
+           or (v.get("style") == "unitary" and v.get("kind") == "haar") for v in arrs):
+        classes.append("code_full_precision_array")
+    if any(v.get("dtype") in ("float32", "complex64") for v in arrs):
+        classes.append("code_f32_c64_array")
+    if any(int(np.prod(v["shape"])) > 1000 for v in arrs):
+        classes.append("code_large_array")
+    if any(0 in v["shape"] or not v["shape"] for v in arrs):
+        classes.append("code_empty_or_0d_array")
+    if any(v["k"] == "str" for d in descs for v in d["p"].values()):
+        classes.append("code_str_param")
     if case["sim"].get("d") is None:
         classes.append("code_d_none")
     if len(cfg) >= 9:
@@ -929,12 +962,18 @@ def exec_case(draw):
         g = draw(progs.gate(d, EXEC_GATES[kind], scale=0.5))
         if g["g"] == "Interferometer":
             k = len(g["modes"])
+            ukind = draw(st.sampled_from(["haar", "haar", "real", "diag", "perm", "identity"]))
+            # low-precision dtypes only where the cast is exact (stays unitary)
+            dts = (["complex128", "float64", "int64", "complex64", "float32"]
+                   if ukind in ("perm", "identity") else
+                   ["float64", "complex128"] if ukind == "real" else ["complex128"])
             p = {"matrix": {"k": "arr", "shape": [k, k], "seed": g["p"]["seed"],
-                            "style": "unitary", "kind": draw(st.sampled_from(["perm", "identity"])),
-                            "dtype": draw(st.sampled_from(["complex128", "float64", "int64"]))}}
+                            "style": "unitary", "kind": ukind, "dtype": draw(st.sampled_from(dts))}}
         else:
-            p = {n: {"k": draw(st.sampled_from(["float", "float", "f64"])), "v": v}
-                 for n, v in g["p"].items()}
+            p = {}
+            for n, v in g["p"].items():
+                kk = draw(st.sampled_from(["float", "float", "float", "f64", "f64", "str"]))
+                p[n] = {"k": "str", "v": repr(float(v))} if kk == "str" else {"k": kk, "v": v}
         insts.append({"g": g["g"], "modes": g["modes"], "p": p})
     measured = kind != "F" and draw(st.booleans())
     if measured:
@@ -959,6 +998,11 @@ def prop_as_code_exec(case, ctx):
     cfg = case["sim"]["config"]
     measured = descs[-1]["g"] == "ParticleNumberMeasurement"
     classes = ["exec", f"exec_sim_{kind}"] + (["exec_sampled"] if measured else [])
+    if any(v["k"] == "str" for d in descs for v in d["p"].values()):
+        classes.append("exec_str_param")
+    if any(v["k"] == "arr" and v.get("kind") in ("haar", "real", "diag")
+           for d in descs for v in d["p"].values()):
+        classes.append("exec_full_precision_unitary")
     if len(cfg) >= 8:
         classes.append("exec_config_all_fields")
     multi = any(d["modes"] and len(d["modes"]) >= 2 for d in descs)
@@ -1003,10 +1047,11 @@ def prop_as_code_exec(case, ctx):
                                 f"{name} of the generated-code result differs from the direct run")
 
 
-# ---- regions with confirmed as_code defects (one bucket per root cause)
+# ---- regression probes of the repaired as_code defects (one bucket per root cause)
 
 def region_cases(tier):
-    """Deterministic cases inside the regions that `as_code` excludes by construction."""
+    """Deterministic cases of the four as_code defects repaired in /repo 195aeff, plus
+    1-D empty / 0-d arrays."""
     sim = {"kind": "G", "d": 3, "config": None}
     out = []
 
@@ -1040,6 +1085,9 @@ def region_cases(tier):
             add("large", g, modes, {key: arr(shape, 5, dt, "short")})
     for src in ("x[0]", "x[-1] * 0.5", "0.5"):
         add("str", "Phaseshifter", [0], {"phi": {"k": "str", "v": src}})
+    for shape in ([0], []):
+        for dt in ("float64", "float32", "complex128"):
+            add("degenerate", "Mean", None, {"mean": arr(shape, 1, dt, "full")})
     return out
 
 
@@ -1076,8 +1124,7 @@ def static_case(draw):
     n = draw(st.integers(0, 6))
     names = sorted(CODE_CAT)
     pool = draw(st.sampled_from([names, names, ARRAY_GATES]))
-    region = draw(st.sampled_from([None, "full", "dtype"]))
-    return {"insts": [draw(code_inst(d, pool, region)) for _ in range(n)]}
+    return {"insts": [draw(code_inst(d, pool)) for _ in range(n)]}
 
 
 def static_classes(descs, tag):
@@ -1408,7 +1455,7 @@ def prep_tree(draw, pool, leaves):
 
 
 @st.composite
-def prep_case(draw, f11=False):
+def prep_case(draw):
     d = draw(st.integers(1, 3))
     npool = draw(st.integers(1, 4))
     pool, seen = [], set()
@@ -1417,28 +1464,8 @@ def prep_case(draw, f11=False):
         if tuple(o) not in seen:
             seen.add(tuple(o))
             pool.append(o)
-    if f11:
-        # NumberState-typed left operand + weighted FockStateVector right operand
-        left = {"t": "N", "occ": draw(st.sampled_from(pool)),
-                "c": draw(st.one_of(st.none(), prep_scalar()))}
-        vec = draw(prep_leaf(pool).filter(lambda x: x["t"] == "V"))
-        form = draw(st.integers(0, 2))
-        if form == 0:
-            vec["c"] = draw(prep_scalar().filter(lambda s: build_value(s) != 1))
-            right = vec
-        elif form == 1:
-            right = {"t": "mul", "x": vec, "side": draw(st.sampled_from(["L", "R"])),
-                     "s": draw(prep_scalar().filter(lambda s: build_value(s) != 1))}
-        else:
-            right = {"t": "div", "x": vec,
-                     "s": draw(prep_scalar().filter(lambda s: build_value(s) != 1))}
-        tree = {"t": "add", "l": left, "r": right}
-        if draw(st.booleans()):
-            tree = {"t": "add", "l": tree, "r": draw(prep_tree(pool, draw(st.integers(1, 3))))}
-        return {"d": d, "tree": tree, "literal": True, "rseed": draw(st.integers(0, 2**32))}
     leaves = draw(st.sampled_from([1, 2, 2, 3, 3, 3, 4, 4, 5, 5]))
-    return {"d": d, "tree": draw(prep_tree(pool, leaves)), "literal": False,
-            "rseed": draw(st.integers(0, 2**32))}
+    return {"d": d, "tree": draw(prep_tree(pool, leaves)), "rseed": draw(st.integers(0, 2**32))}
 
 
 def frac_c(z):
@@ -1485,8 +1512,11 @@ def ref_eval(node):
     return {k: c_div(v, s) for k, v in x.items()}, m / sm
 
 
-def pq_eval(node, literal, stats):
-    """Build the piquasso object of the tree from fresh leaves."""
+def pq_eval(node, stats, commute_f11=False):
+    """Build the piquasso object of the tree from fresh leaves, exactly as written.
+    `stats["f11"]` counts additions `NumberState + FockStateVector(coefficient != 1)` (the
+    operand pattern of finding F11); `commute_f11` evaluates those in the commuted order and
+    is used only to attribute a mismatch to that root cause."""
     t = node["t"]
     if t == "N":
         kw = {} if node["c"] is None else {"coefficient": build_value(node["c"])}
@@ -1495,15 +1525,16 @@ def pq_eval(node, literal, stats):
         kw = {} if node["c"] is None else {"coefficient": build_value(node["c"])}
         return pq.FockStateVector({tuple(o): build_value(a) for o, a in node["map"]}, **kw)
     if t == "add":
-        left, right = pq_eval(node["l"], literal, stats), pq_eval(node["r"], literal, stats)
+        left = pq_eval(node["l"], stats, commute_f11)
+        right = pq_eval(node["r"], stats, commute_f11)
         trigger = (isinstance(left, pq.NumberState) and isinstance(right, pq.FockStateVector)
                    and right.params["coefficient"] != 1)
         if trigger:
             stats["f11"] += 1
-            if not literal:
+            if commute_f11:
                 return right + left
         return left + right
-    x = pq_eval(node["x"], literal, stats)
+    x = pq_eval(node["x"], stats, commute_f11)
     s = build_value(node["s"])
     if t == "mul":
         return s * x if node["side"] == "L" else x * s
@@ -1567,19 +1598,28 @@ def show(node):
     return f"{show(node['x'])}/{build_value(node['s'])!r}"
 
 
-def check_tree(tree, literal, ref, tol, d, ctx, simulate):
+def check_tree(tree, ref, tol, d, ctx, simulate):
     stats = {"f11": 0}
     try:
         with warnings.catch_warnings():
             warnings.simplefilter("ignore")
-            obj = pq_eval(tree, literal, stats)
+            obj = pq_eval(tree, stats)
     except Exception as e:  # noqa: BLE001
         raise Violation(f"C18:prep:raises:{type(e).__name__}", f"{show(tree)}: {e!r}")
-    if stats["f11"] and not literal:
-        ctx.exclude(F11_BUCKET, stats["f11"])
-    trig = stats["f11"] and literal
+    if stats["f11"]:
+        ctx.count("prep_number_plus_weighted_vector_additions", stats["f11"])
     got = effective_map(obj)
     bad = map_mismatch(ref, got, tol)
+    trig = False
+    if bad and stats["f11"]:
+        # root cause F11 iff the mismatch disappears when exactly those additions are commuted
+        try:
+            with warnings.catch_warnings():
+                warnings.simplefilter("ignore")
+                alt = effective_map(pq_eval(tree, {"f11": 0}, commute_f11=True))
+            trig = map_mismatch(ref, alt, tol) is None
+        except Exception:  # noqa: BLE001
+            trig = False
     if bad:
         raise Violation(F11_BUCKET if trig else "C18:prep:effective-map",
                         f"{show(tree)} denotes amplitude {bad[1]!r} on |{bad[0]}> but the "
@@ -1607,24 +1647,35 @@ def check_tree(tree, literal, ref, tol, d, ctx, simulate):
         prepared = {b: complex(v) for b, v in zip(basis, vec) if v != 0}
         bad = map_mismatch(ref, prepared, tol)
         if bad:
-            raise Violation(F11_BUCKET if trig else f"C18:prep:prepared-state:{simname}",
+            raise Violation(f"C18:prep:prepared-state:{simname}",
                             f"{show(tree)} denotes amplitude {bad[1]!r} on |{bad[0]}> but "
                             f"{simname} prepared {bad[2]!r}")
 
 
+def has_f11_pattern(tree) -> bool:
+    stats = {"f11": 0}
+    try:
+        with warnings.catch_warnings():
+            warnings.simplefilter("ignore")
+            pq_eval(tree, stats)
+    except Exception:  # noqa: BLE001
+        return False
+    return stats["f11"] > 0
+
+
 def prop_prep(case, ctx):
-    tree, d, literal = case["tree"], case["d"], case["literal"]
+    tree, d = case["tree"], case["d"]
     kinds = leaves_of(tree)
     mixed3 = len(kinds) >= 3 and len(set(kinds)) == 2
     classes = ["prep", f"prep_leaves_{len(kinds)}"]
     if mixed3:
         classes.append("prep_mixed_ge3")
-    if literal:
-        classes.append("prep_f11_region")
+    if has_f11_pattern(tree):
+        classes.append("prep_number_plus_weighted_vector")
     ctx.case(case, mixed3, classes)
     ref, mag = ref_eval(tree)
     tol = 1e-12 * max(1.0, mag)
-    check_tree(tree, literal, ref, tol, d, ctx, simulate=True)
+    check_tree(tree, ref, tol, d, ctx, simulate=True)
     # every association / commutation of the same multiset of summands denotes the same state
     terms = summands(tree) if tree["t"] == "add" else None
     if terms and len(terms) >= 2:
@@ -1638,12 +1689,12 @@ def prop_prep(case, ctx):
                             1e-15 * max(1.0, mag)):
                 raise RuntimeError("oracle inconsistency: rearranged reference differs")
             ctx.count("prep_rearrangements")
-            check_tree(other, literal, ref, 1e-12 * max(1.0, mag2), d, ctx, simulate=(r == 0))
+            check_tree(other, ref, 1e-12 * max(1.0, mag2), d, ctx, simulate=(r == 0))
 
 
 def f11_cases(tier):
-    """NumberState-typed left operand + FockStateVector right operand with coefficient != 1,
-    evaluated literally.  The first entry is the minimal input of finding F11."""
+    """Regression probe: NumberState-typed left operand + FockStateVector right operand with
+    coefficient != 1.  The first entry is the minimal input of finding F11 (repaired)."""
     half = {"k": "float", "v": 0.5}
     one = {"k": "int", "v": 1}
 
@@ -1672,7 +1723,7 @@ def f11_cases(tier):
         out.append(add(N([0, 1], half), w(V([([0, 1], one), ([1, 0], {"k": "int", "v": 3})]), s_)))
         out.append(add(add(N([1, 0]), w(V([([0, 1], one)]), s_)), N([2, 0], half)))
         out.append(add(add(N([1, 0]), N([1, 0])), w(V([([0, 1], one)]), s_)))
-    return [{"d": 2, "tree": t, "literal": True, "rseed": i} for i, t in enumerate(out)]
+    return [{"d": 2, "tree": t, "rseed": i} for i, t in enumerate(out)]
 
 
 # ============================================================================ parts
@@ -1695,11 +1746,8 @@ def parts(tier):
         Part("prep", prop_prep, strategy=prep_case(),
              examples={"quick": 1600, "thorough": 50000}),
     ]
-    for part in ps:
-        part.shrink = not NO_SHRINK
-    if not SKIP_KNOWN_REGIONS:
-        ps += [
-            Part("as_code_regions", prop_as_code_regions, kind="enum", cases=region_cases),
-            Part("prep_f11", prop_prep, kind="enum", cases=f11_cases),
-        ]
+    ps += [
+        Part("as_code_regions", prop_as_code_regions, kind="enum", cases=region_cases),
+        Part("prep_f11", prop_prep, kind="enum", cases=f11_cases),
+    ]
     return ps
